@@ -39,7 +39,7 @@ func synthLayout(c explore.Chooser) *prog.Program {
 		lc.Abs = append(lc.Abs, form == 1 || (form == 2 && i%2 == 1))
 	}
 	lc.Spell = []string{"clean", "dotdot", "double-slash", "dot"}[s.Choose("spelling", 4)]
-	lc.Error = []string{"", "missing", "txt", "type-error", "two-modules", "directory", "type-error-in-import", "type-error-in-transitive-import"}[s.Choose("error-case", 8)]
+	lc.Error = []string{"", "missing", "txt", "type-error", "two-modules", "directory", "type-error-in-import", "type-error-in-transitive-import", "path-through-a-file", "trailing-separator", "name-too-long"}[s.Choose("error-case", 11)]
 	js, _ := json.Marshal(lc)
 	feats := []string{fmt.Sprintf("files=%v", lc.Files), fmt.Sprintf("abs=%v", lc.Abs)}
 	if lc.Spell != "clean" {
@@ -139,6 +139,12 @@ func evalC17(e *Eval) {
 		args = append(args, filepath.Join(root, "..", "other", "o.go"))
 	case "directory":
 		args = append(args, "ab")
+	case "path-through-a-file": // stat fails with ENOTDIR, not ENOENT
+		args = append(args, "a/f.go/x.go")
+	case "trailing-separator":
+		args = append(args, "a/f.go/")
+	case "name-too-long": // ENAMETOOLONG
+		args = append(args, "a/"+strings.Repeat("n", 300)+".go")
 	case "type-error-in-import":
 		args = append(args, "imp/f.go")
 	case "type-error-in-transitive-import":
